@@ -6,6 +6,10 @@ CONSTANTS
   Caps = {0, 1, 3}
   Len0s = {0, 1}
   Sizes = {0, 1, 2, 4}
+  ExtExact = {2, 4}
+  ExtNoHint = {2}
+  ExtUnder = {1, 4}
+  ExtOver = {1}
   AdvSizes = {0, 1}
   Avails = {0, 2}
   CapAts = {0, 1, 5}
